@@ -216,7 +216,7 @@ def dep_shape(draw, avail: list[int], *, max_refs: int = 4, dup_bias: bool = Fal
     return wrap(leaves, 1)
 
 
-DEFAULT_TYPES = ['N1', 'N2', 'N3', 'NN', 'Z', 'CtxSub', 'CtxSubMix', 'CtxSubKid']
+DEFAULT_TYPES = ['N1', 'N2', 'N3', 'NN', 'Z', 'CtxSub', 'CtxSubMix', 'CtxSubKid', 'NCV']
 
 
 @st.composite
